@@ -364,22 +364,27 @@ def sqrt_of(p):
 _SIN = re.compile(r'^sin\((.*)\)$')
 
 
+def _has_trig(p):
+    for m in p.t:
+        for a, e in m:
+            if e >= 2 and a.startswith('sin('):
+                return True
+    return False
+
+
 def trig_normal(p):
     """reduce sin(x)^k (k>=2) with sin^2 = 1 - cos^2 (A3)"""
-    changed = True
-    while changed:
-        changed = False
-        out = P({})
+    while _has_trig(p):
+        keep = {}
+        extra = P({})
         for m, c in p.t.items():
             hit = None
             for a, e in m:
                 if e >= 2 and a.startswith('sin('):
                     hit = (a, e)
                     break
-                if e <= -1 and (a.startswith('sin(') or a.startswith('cos(')):
-                    pass
             if hit is None:
-                out = out + P({m: c})
+                keep[m] = c
                 continue
             a, e = hit
             x = _SIN.match(a).group(1)
@@ -388,13 +393,14 @@ def trig_normal(p):
             repl = (P.const(1) - P.atom('cos(%s)' % x, 2)) ** k
             if r:
                 repl = repl * P.atom(a)
-            out = out + P({rest: c}) * repl
-            changed = True
-        p = out
+            extra = extra + P({rest: c}) * repl
+        p = P(keep) + extra
     return p
 
 
 def sqrt_normal(p):
+    if not any(a.startswith('sqrt[') for a in p.atoms()):
+        return p
     changed = True
     while changed:
         changed = False
